@@ -474,6 +474,19 @@ class Obligations:
         self.items = []   # dicts
         self.time = 0.0
 
+    def witness_many(self, name, decls, assumptions, terms, describe, chunk=200):
+        """vacuity witness over many path conditions: at least one chunk must be satisfiable for both solvers"""
+        chunks = ["(or false " + " ".join(terms[i:i + chunk]) + ")" for i in range(0, max(1, len(terms)), chunk)]
+        t = time.time()
+        r = solve_batches(decls, assumptions, chunks)
+        self.time += time.time() - t
+        common = [i for i in range(len(chunks)) if all(r[k][0][i] == "sat" for k in r)]
+        verdicts = {k: ("sat" if "sat" in vs else "error" if "error" in vs else "unsat") for k, (vs, raw) in r.items()}
+        st = "witness-ok" if common else "inconclusive"
+        self.items.append({"obligation": name, "describe": describe, "verdicts": verdicts, "status": st, "model": None,
+                           "solver_output": {k: v[1][:300] for k, v in r.items()} if st == "inconclusive" else None})
+        return st
+
     def check_many(self, name, decls, assumptions, bad_terms, describe, chunk=120):
         """the obligation holds iff every bad term is unsatisfiable; discharged chunk-wise in one incremental
         session per solver (a single disjunction of thousands of path terms stalls cvc5)"""
